@@ -99,7 +99,10 @@ class Lexer:
         if '.' in t.value:
             t.value = float(t.value)
         else:
-            t.value = int(t.value)
+            try:
+                t.value = int(t.value)
+            except ValueError:
+                raise exceptions.YaqlLexicalException(t.value, t.lexpos)
         return t
 
     @staticmethod
